@@ -18,14 +18,19 @@ import struct
 import numpy as np
 from scipy.interpolate import PchipInterpolator
 
+from . import curve_common
 from .. import core, comps, plants
 from ..core import enc, dec, close
 from feems.components_model.node import get_fuel_emission_energy_balance_for_component
 from feems.components_model.utility import IntegrationMethod
 from feems.types_for_feems import EmissionType, NOxCalculationMethod
+from feems.fuel import FuelSpecifiedBy
 
 THEOREMS = ["values", "limit1", "limit2", "limit3", "upper", "lower", "medium_antitone", "pos", "at_130", "antitone", "tier_order",
             "jump_at_130", "continuous_above", "mass_formula"]
+THEOREMS += curve_common.CURVE_THEOREMS["C09"]       # the interpolation rule of the curves (FeemsProofs/CurveProps.lean)
+EXTRA_PROOF_MODULES = curve_common.PROOF_MODULES
+DEPENDS_ON_MODULES = curve_common.DEPENDS
 
 REG13 = {1: (17.0, 45.0, -0.2), 2: (14.4, 44.0, -0.23), 3: (3.4, 9.0, -0.2)}
 
@@ -108,7 +113,9 @@ def gen_mass_case(rng, idx):
 
 
 def _mass_case(rng, idx, eng, rated, n, lo, hi):
+    # the species totals do not depend on which greenhouse-gas factor set the result is asked with (seeded change C09-r6)
     return {"idx": idx, "kind": "mass", "engine": eng, "rated": rated, "geared": bool(rng.random() < 0.3),
+            "factors": str(rng.choice(["IMO", "FUEL_EU_MARITIME", "default"], p=[0.3, 0.4, 0.3])),
             "powers": [float(np.round(rng.uniform(lo, hi) * rated * (0.9 if hi <= 1.0 else 0.97), 2)) if rng.random() < 0.85 else 0.0 for _ in range(n)],
             "dt": [float(rng.choice([1.0, 60.0, 900.0, 3600.0])) for _ in range(n)]}
 
@@ -122,7 +129,12 @@ def run_mass_case(ctx, case, model=True):
     P, dt = np.array(case["powers"], dtype=float), np.array(case["dt"], dtype=float)
     obj.power_output = P.copy()
     try:
-        res = get_fuel_emission_energy_balance_for_component(obj, dt, IntegrationMethod.sum_with_time)
+        ctx.count("factor_set", case.get("factors", "default"))
+        if case.get("factors", "default") == "default":
+            res = get_fuel_emission_energy_balance_for_component(obj, dt, IntegrationMethod.sum_with_time)
+        else:
+            res = get_fuel_emission_energy_balance_for_component(obj, dt, IntegrationMethod.sum_with_time,
+                                                                 fuel_specified_by=FuelSpecifiedBy[case["factors"]])
         rp = obj.get_engine_run_point_from_power_out_kw(P.copy())
     except Exception as e:
         ctx.fail("predicate", "result-raises-" + core.error_class(e), f"{type(e).__name__}: {e}", where)
@@ -181,6 +193,7 @@ def run(ctx):
         run_mass_case(ctx, gen_mass_case(ctx.rng, i))
     ctx.samples.append({"kind": "limit", "speeds": sorted(sp)[:8]})
 
+    curve_common.run_curves(ctx, "emission", 60, 1500)
 
 def search(ctx):
     run_limits(ctx, [float(x) for x in range(1, 2001)], model=False)
@@ -190,7 +203,9 @@ def replay(data):
     ctx = core.Ctx("C09", "quick", data.get("seed", 0))
     ctx.model_available = core.DRIVER.exists()
     case = data["case"]["case"]
-    if case.get("kind") == "limit":
+    if case.get("kind") == "curve":
+        curve_common.replay_curve(ctx, case)
+    elif case.get("kind") == "limit":
         run_limits(ctx, [case["speed"]] + ([case["speed"] - 1] if case["speed"] > 2 else []))
     else:
         run_mass_case(ctx, case)
